@@ -36,28 +36,46 @@ def expected : List Site := [
   ⟨"pkg/agent/ws_agent_msg_impl.go", "wamSyscallRequest.UnmarshalCbor", "readstring", "cboring.ReadTextString", "", .wire, "", "", none, 0, false⟩,
   ⟨"pkg/agent/ws_agent_msg_impl.go", "wamSyscallResponse.UnmarshalCbor", "readstring", "cboring.ReadTextString", "", .wire, "", "", none, 0, false⟩,
   ⟨"pkg/agent/ws_agent_msg_impl.go", "wamSyscallResponse.UnmarshalCbor", "readstring", "cboring.ReadByteString", "", .wire, "", "", none, 0, false⟩,
+  ⟨"pkg/bpv7/administrative_record.go", "AdministrativeRecordManager.IsKnown", "call", "arm.data.Load(typeCode)", "arm.data.Load", .param, "uint64", "", none, 0, false⟩,
+  ⟨"pkg/bpv7/administrative_record.go", "AdministrativeRecordManager.ReadAdministrativeRecord", "call", "arm.data.Load(typeCode)", "arm.data.Load", .wire, "", "", none, 0, false⟩,
+  ⟨"pkg/bpv7/administrative_record_status_report.go", "BundleStatusItem.UnmarshalCbor", "call", "DtnTime(n)", "DtnTime", .wire, "", "n != 1 && n != 2 => return", none, 0, false⟩,
   ⟨"pkg/bpv7/administrative_record_status_report.go", "NewStatusReport", "make", "maxStatusInformationPos", "[]BundleStatusItem", .const, "", "", none, 0, false⟩,
   ⟨"pkg/bpv7/administrative_record_status_report.go", "StatusReport.UnmarshalCbor", "make", "0", "[]BundleStatusItem", .const, "", "", none, 0, false⟩,
   ⟨"pkg/bpv7/administrative_record_status_report.go", "StatusReport.UnmarshalCbor", "makecap", "maxStatusInformationPos", "[]BundleStatusItem", .const, "", "", none, 0, false⟩,
   ⟨"pkg/bpv7/administrative_record_status_report.go", "StatusReport.UnmarshalCbor", "loop", "statusInformationLen", "", .wire, "", "", none, 0, true⟩,
+  ⟨"pkg/bpv7/administrative_record_status_report.go", "StatusReport.UnmarshalCbor", "call", "StatusReportReason(n)", "StatusReportReason", .wire, "", "", none, 0, false⟩,
+  ⟨"pkg/bpv7/bundle.go", "Bundle.HasExtensionBlock", "call", "b.ExtensionBlock(blockType)", "b.ExtensionBlock", .param, "uint64", "", none, 0, false⟩,
   ⟨"pkg/bpv7/bundle.go", "Bundle.RemoveExtensionBlockByBlockNumber", "slice", "b.CanonicalBlocks[:i] @ i", "", .loc, "", "", none, 0, false⟩,
   ⟨"pkg/bpv7/bundle.go", "Bundle.RemoveExtensionBlockByBlockNumber", "slice", "b.CanonicalBlocks[i+1:] @ i + 1", "", .loc, "", "", none, 0, false⟩,
   ⟨"pkg/bpv7/bundle.go", "Bundle.UnmarshalCbor", "loopbreak", "", "", .wire, "", "", none, 0, true⟩,
   ⟨"pkg/bpv7/bundle.go", "Bundle.MarshalJSON", "make", "len(b.CanonicalBlocks)", "[]json.Marshaler", .lenMem, "", "", none, 0, false⟩,
+  ⟨"pkg/bpv7/canonical_block.go", "CanonicalBlock.UnmarshalCbor", "call", "cboring.WriteArrayLength(blockLen)", "cboring.WriteArrayLength", .wire, "uint64", "blockLen == 6", some 6, 0, false⟩,
+  ⟨"pkg/bpv7/canonical_block.go", "CanonicalBlock.UnmarshalCbor", "call", "BlockControlFlags(bcf)", "BlockControlFlags", .wire, "", "", none, 0, false⟩,
+  ⟨"pkg/bpv7/canonical_block.go", "CanonicalBlock.UnmarshalCbor", "call", "CRCType(crcT)", "CRCType", .wire, "", "", none, 0, false⟩,
+  ⟨"pkg/bpv7/canonical_block.go", "CanonicalBlock.UnmarshalCbor", "call", "GetExtensionBlockManager().ReadBlock(blockType)", "GetExtensionBlockManager().ReadBlock", .wire, "uint64", "", none, 0, false⟩,
   ⟨"pkg/bpv7/canonical_block.go", "CanonicalBlock.UnmarshalCbor", "readstring", "cboring.ReadByteString", "", .wire, "", "", none, 0, false⟩,
   ⟨"pkg/bpv7/endpoint_dtn.go", "NewDtnEndpoint", "slice", "uri[len(dtnEndpointSchemeName)+1:] @ len(dtnEndpointSchemeName) + 1", "", .lenMem, "", "!strings.HasPrefix(uri, dtnEndpointSchemeName+\":\") => return", none, 0, false⟩,
   ⟨"pkg/bpv7/endpoint_dtn.go", "DtnEndpoint.UnmarshalCbor", "readraw", "n", "", .wire, "", "", none, 0, false⟩,
+  ⟨"pkg/bpv7/extension_block.go", "ExtensionBlockManager.ReadBlock", "call", "ebm.createBlock(typeCode)", "ebm.createBlock", .param, "uint64", "", none, 0, false⟩,
   ⟨"pkg/bpv7/extension_block.go", "ExtensionBlockManager.ReadBlock", "readstring", "cboring.ReadByteString", "", .wire, "", "", none, 0, false⟩,
   ⟨"pkg/bpv7/extension_block.go", "ExtensionBlockManager.ReadBlock", "readstring", "cboring.ReadByteString", "", .wire, "", "", none, 0, false⟩,
+  ⟨"pkg/bpv7/extension_block_bundle_age.go", "NewBundleAgeBlock", "call", "BundleAgeBlock(ms)", "BundleAgeBlock", .param, "uint64", "", none, 0, false⟩,
+  ⟨"pkg/bpv7/extension_block_bundle_age.go", "BundleAgeBlock.UnmarshalCbor", "call", "BundleAgeBlock(us)", "BundleAgeBlock", .wire, "", "", none, 0, false⟩,
+  ⟨"pkg/bpv7/extension_block_dtlsr.go", "DTLSRBlock.UnmarshalCbor", "call", "DtnTime(timestamp)", "DtnTime", .wire, "", "", none, 0, false⟩,
   ⟨"pkg/bpv7/extension_block_dtlsr.go", "DTLSRBlock.UnmarshalCbor", "loop", "lenData", "", .wire, "uint64", "", none, 0, true⟩,
+  ⟨"pkg/bpv7/extension_block_dtlsr.go", "DTLSRBlock.UnmarshalCbor", "call", "DtnTime(timestamp)", "DtnTime", .wire, "", "", none, 0, false⟩,
   ⟨"pkg/bpv7/extension_block_prophet.go", "ProphetBlock.UnmarshalCbor", "loop", "lenData", "", .wire, "uint64", "", none, 0, true⟩,
   ⟨"pkg/bpv7/extension_block_signature.go", "SignatureBlock.UnmarshalCbor", "readstring", "cboring.ReadByteString", "", .wire, "", "", none, 0, false⟩,
+  ⟨"pkg/bpv7/primary_block.go", "PrimaryBlock.UnmarshalCbor", "call", "BundleControlFlags(bcf)", "BundleControlFlags", .wire, "", "", none, 0, false⟩,
+  ⟨"pkg/bpv7/primary_block.go", "PrimaryBlock.UnmarshalCbor", "call", "CRCType(crcT)", "CRCType", .wire, "", "", none, 0, false⟩,
   ⟨"pkg/bpv7/primary_block.go", "PrimaryBlock.UnmarshalCbor", "readstring", "cboring.ReadByteString", "", .wire, "", "", none, 0, false⟩,
   ⟨"pkg/cla/bbc/connector.go", "NewConnector", "makechan", "64", "chan Fragment", .const, "", "", none, 0, false⟩,
   ⟨"pkg/cla/bbc/connector.go", "NewConnector", "makechan", "64", "chan byte", .const, "", "", none, 0, false⟩,
   ⟨"pkg/cla/bbc/connector.go", "NewConnector", "makechan", "64", "chan cla.ConvergenceStatus", .const, "", "", none, 0, false⟩,
   ⟨"pkg/cla/bbc/connector.go", "Connector.handlerRead", "loopbreak", "", "", .wire, "", "", none, 0, true⟩,
   ⟨"pkg/cla/bbc/transmission.go", "IncomingTransmission.Bundle", "xzreader", "xz.NewReader", "", .wire, "", "", none, 0, false⟩,
+  ⟨"pkg/cla/bbc/transmission.go", "NewOutgoingTransmission", "call", "newPlainOutgoingTransmission(transmissionID)", "newPlainOutgoingTransmission", .param, "byte", "", none, 0, false⟩,
+  ⟨"pkg/cla/bbc/transmission.go", "NewOutgoingTransmission", "call", "newPlainOutgoingTransmission(mtu)", "newPlainOutgoingTransmission", .param, "int", "", none, 0, false⟩,
   ⟨"pkg/cla/bbc/transmission.go", "OutgoingTransmission.WriteFragment", "slice", "t.Payload[:t.mtu] @ t.mtu", "", .loc, "", "!(len(t.Payload) <= t.mtu)", none, 0, false⟩,
   ⟨"pkg/cla/bbc/transmission.go", "OutgoingTransmission.WriteFragment", "slice", "t.Payload[t.mtu:] @ t.mtu", "", .loc, "", "!(len(t.Payload) <= t.mtu)", none, 0, false⟩,
   ⟨"pkg/cla/mtcp/server.go", "MTCPServer.handleSender", "loopbreak", "", "", .wire, "", "", none, 0, true⟩,
@@ -68,6 +86,8 @@ def expected : List Site := [
   ⟨"pkg/cla/tcpclv4/internal/msgs/message.go", "discardBytes", "copyn", "int64(l)", "ioutil.Discard", .param, "uint64", "l > math.MaxInt64 => return", some 9223372036854775807, 0, false⟩,
   ⟨"pkg/cla/tcpclv4/internal/msgs/sess_init.go", "SessionInitMessage.Unmarshal", "make", "nodeIdLen", "[]byte", .wire, "uint16", "", some 65535, 0, false⟩,
   ⟨"pkg/cla/tcpclv4/internal/msgs/sess_init.go", "SessionInitMessage.Unmarshal", "readfull", "nodeIdBuff = make([]byte, nodeIdLen)", "", .wire, "uint16", "", some 65535, 0, false⟩,
+  ⟨"pkg/cla/tcpclv4/internal/msgs/sess_init.go", "SessionInitMessage.Unmarshal", "call", "discardBytes(uint64(sessionExtsLen))", "discardBytes", .wire, "uint32", "", none, 0, false⟩,
+  ⟨"pkg/cla/tcpclv4/internal/msgs/xfer_segment.go", "DataTransmissionMessage.Unmarshal", "call", "discardBytes(uint64(transferExtLen))", "discardBytes", .wire, "uint32", "", none, 0, false⟩,
   ⟨"pkg/cla/tcpclv4/internal/msgs/xfer_segment.go", "DataTransmissionMessage.Unmarshal", "readraw", "dataLen", "", .wire, "uint64", "dataLen > 0", none, 1, false⟩,
   ⟨"pkg/cla/tcpclv4/internal/utils/message_switch_readerwriter.go", "NewMessageSwitchReaderWriter", "makechan", "32", "chan msgs.Message", .const, "", "", none, 0, false⟩,
   ⟨"pkg/cla/tcpclv4/internal/utils/message_switch_readerwriter.go", "NewMessageSwitchReaderWriter", "makechan", "32", "chan msgs.Message", .const, "", "", none, 0, false⟩,
@@ -77,11 +97,13 @@ def expected : List Site := [
   ⟨"pkg/cla/tcpclv4/internal/utils/transfer_manager.go", "TransferManager.Send", "makechan", "1", "chan error", .const, "", "", none, 0, false⟩,
   ⟨"pkg/cla/tcpclv4/internal/utils/transfer_manager.go", "TransferManager.Send", "makechan", "1", "chan int", .const, "", "", none, 0, false⟩,
   ⟨"pkg/cla/tcpclv4/internal/utils/transfer_manager.go", "TransferManager.Send", "loopbreak", "", "", .wire, "", "", none, 0, true⟩,
+  ⟨"pkg/cla/tcpclv4/internal/utils/transfer_out.go", "NewBundleOutgoingTransfer", "call", "NewOutgoingTransfer(id)", "NewOutgoingTransfer", .param, "uint64", "", none, 0, false⟩,
   ⟨"pkg/cla/tcpclv4/internal/utils/transfer_out.go", "OutgoingTransfer.NextSegment", "make", "mtu", "[]byte", .param, "uint64", "mtu == 0 => return; mtu > MaxSegmentMtu => mtu = MaxSegmentMtu", some 1048576, 1, false⟩,
   ⟨"pkg/cla/tcpclv4/internal/utils/transfer_out.go", "OutgoingTransfer.NextSegment", "readfull", "buf = make([]byte, mtu)", "", .param, "uint64", "mtu == 0 => return; mtu > MaxSegmentMtu => mtu = MaxSegmentMtu", some 1048576, 1, false⟩,
   ⟨"pkg/cla/tcpclv4/internal/utils/transfer_out.go", "OutgoingTransfer.NextSegment", "slice", "buf[:n] @ n", "", .loc, "", "", none, 0, false⟩,
   ⟨"pkg/discovery/announcement.go", "UnmarshalAnnouncements", "make", "0", "[]Announcement", .const, "", "", none, 0, false⟩,
-  ⟨"pkg/discovery/announcement.go", "UnmarshalAnnouncements", "loop", "l", "", .wire, "", "", none, 0, true⟩]
+  ⟨"pkg/discovery/announcement.go", "UnmarshalAnnouncements", "loop", "l", "", .wire, "", "", none, 0, true⟩,
+  ⟨"pkg/discovery/announcement.go", "Announcement.UnmarshalCbor", "call", "cla.CLAType(n)", "cla.CLAType", .wire, "", "", none, 0, false⟩]
 
 theorem extraction_complete : extractionFailures = [] := by decide
 
@@ -91,6 +113,15 @@ theorem alloc_sites_expected : allocSites = expected := by decide
 def maxPrealloc : Nat := 1024 * 1024
 
 def wireDerived (s : Site) : Bool := s.prov == .wire || s.prov == .param
+
+/-- Functions a decoded number may be handed to: conversions to named integer types, registry look-ups,
+CBOR writers, the unbuffered skip, constructors that store it. None of them allocates by its argument;
+`cboring.ReadRawBytes` and `make` have rows of their own. A decoded number passed to anything else is a new
+row of the table and needs a decision here. -/
+def allowedCallees : List String :=
+  ["DtnTime", "StatusReportReason", "BlockControlFlags", "BundleControlFlags", "CRCType", "BundleAgeBlock",
+   "cla.CLAType", "arm.data.Load", "b.ExtensionBlock", "GetExtensionBlockManager().ReadBlock", "ebm.createBlock",
+   "cboring.WriteArrayLength", "discardBytes", "newPlainOutgoingTransmission", "NewOutgoingTransfer"]
 
 /-- Decidable core of `Bounded`. -/
 def boundedB (s : Site) : Bool :=
@@ -105,6 +136,7 @@ def boundedB (s : Site) : Bool :=
      (s.elem == "&buf" || s.elem == "ioutil.Discard") && (match s.bound with | some b => b < 2 ^ 63 | none => false)
    | "readraw" | "readstring" => true      -- cboring.ReadRawBytes, see `Bounded`
    | "loop" | "loopbreak" => s.reads       -- every iteration reads from the wire or leaves
+   | "call" => allowedCallees.contains s.elem
    | _ => false)
 
 /-- What the property demands of one allocation site: its size is not wire-derived; or it is guarded by a
